@@ -478,9 +478,9 @@ def plan(tier):
 
 def work(shard, seed, tier):
     acc = Acc()
-    n = 60 if tier == "quick" else 1900
+    n = 50 if tier == "quick" else 1900
     campaign(acc, case_st(), execute, n, seed * 1000 + shard["i"],
-             budget=Budget(30 if tier == "quick" else 480), shrink_examples=300)
+             budget=Budget(90 if tier == "quick" else 480), shrink_examples=300)
     return acc
 
 
